@@ -445,14 +445,33 @@ class SetOrder:
                 return None     # called on another object: not all callers are known
         return out or None
 
-    def through_callers(self, sinks, fn, depth=2):
-        """a value that only leaves a private helper through its return value is followed into the callers"""
+    def _passes_unordered(self, call, fn, pname):
+        params = [a.arg for a in fn.args.posonlyargs + fn.args.args]
+        if isinstance(call.func, ast.Attribute) and params and params[0] in ("self", "cls"):
+            params = params[1:]
+        arg = None
+        for k, a in enumerate(call.args):
+            if isinstance(a, ast.Starred):
+                return True
+            if k < len(params) and params[k] == pname:
+                arg = a
+        for kw in call.keywords:
+            if kw.arg == pname:
+                arg = kw.value
+        caller = enclosing(call, FuncNode)
+        return arg is not None and caller is not None and self.unordered(arg, self.scope(caller), 3)
+
+    def through_callers(self, sinks, fn, depth=2, param=None):
+        """A value that only leaves a private helper through its return value is followed into the callers (``param``: the
+        tainted value is that parameter - only the callers that pass a set for it are concerned)."""
         rets = [s for s in sinks if s[1] in ("returned", "yielded")]
         if not rets or depth <= 0:
             return sinks
         calls_ = self.callers(fn)
         if calls_ is None:
             return sinks
+        if param is not None:
+            calls_ = [c_ for c_ in calls_ if self._passes_unordered(c_, fn, param)]
         out = [s for s in sinks if s[1] not in ("returned", "yielded")]
         for call in calls_:
             caller = enclosing(call, FuncNode)
@@ -889,9 +908,16 @@ class SetOrder:
         value): follow the container"""
         depth = 0
         base = recv
-        while isinstance(base, (ast.Subscript, ast.Attribute)) and not (isinstance(base, ast.Attribute) and isinstance(base.value, ast.Name) and base.value.id in ("self", "cls")):
-            depth += isinstance(base, ast.Subscript)
-            base = base.value
+        while True:
+            if isinstance(base, ast.Call) and isinstance(base.func, ast.Attribute) and base.func.attr in ("setdefault", "get", "__getitem__"):
+                depth += 1          # d.setdefault(k, []) / d.get(k): an entry of the container d
+                base = base.func.value
+                continue
+            if isinstance(base, (ast.Subscript, ast.Attribute)) and not (isinstance(base, ast.Attribute) and isinstance(base.value, ast.Name) and base.value.id in ("self", "cls")):
+                depth += isinstance(base, ast.Subscript)
+                base = base.value
+                continue
+            break
         if isinstance(base, ast.Name) and base.id not in ("self", "cls"):
             return self.name_sinks(base.id, at, nested or depth > 0)
         return [(at, f"stored in {short(recv, 40)}")]
@@ -1379,7 +1405,8 @@ def r19a_sets(ctx):
             n_sites += 1
             oref = f"{ref.split(':')[0]}:{sc.fn._qual}"
             origin = _origin(so, src, sc)
-            sinks = so.through_callers(so.sinks_of_read(src, node, sc), sc.fn)
+            prm = src.id if isinstance(src, ast.Name) and src.id in sc.params and not sc.values(src.id) else None
+            sinks = so.through_callers(so.sinks_of_read(src, node, sc), sc.fn, param=prm)
             run_node = node.iter if isinstance(node, ast.comprehension) else node
             entry = reached.get(id(run_node))
             key = f"{oref} {origin}"
